@@ -216,6 +216,17 @@ def make_evo(arr, mode="se3", stamped=True, meta=None, flavour="array64"):
             PoseTrajectory3D = type("UserTrajectory", (_tr.PoseTrajectory3D, ), {})
             PosePath3D = type("UserPath", (_tr.PosePath3D, ), {})
     flavour = flavour.split("+")[0]
+    if flavour == "dataframe" and mode == "xyzq":
+        # the object as it comes back from evo's pandas bridge (DataFrame round trip of the same
+        # numbers): its arrays are column slices of a frame (column-major memory)
+        from evo.tools import pandas_bridge as _pb
+        base = make_evo(arr, mode, stamped, meta=meta, flavour="array64")
+        obj = _pb.df_to_trajectory(_pb.trajectory_to_df(base))
+        if type(obj) is type(base) and obj.num_poses == base.num_poses:
+            if meta is not None:
+                obj.meta.update(meta)
+            return obj
+        return base
     if flavour == "loaded":
         obj = _loaded(arr, mode, stamped)
         if obj is not None:
@@ -307,7 +318,7 @@ def all_integer(a):
 def rand_flavour(rng):
     u = rng.random()
     base = "lists" if u < .15 else "int" if u < .3 else "stacked" if u < .45 else "shared" if u < .6 else \
-        "loaded" if u < .7 else "array64"
+        "loaded" if u < .7 else "dataframe" if u < .76 else "array64"
     return base + ("+sub" if rng.random() < .1 else "")
 
 
